@@ -261,7 +261,7 @@ def genProfile (profile : String) (seed : Nat) (count len : Nat) : Array String 
       | "alloc" => genRandomHistory rng profAlloc len
       | "abuse" => genRandomHistory rng { profGc with invalidPct := 30 } len
       | "limits" =>
-        if i % 3 = 0 then genManyGroups rng (12 + i % 3 + (i / 3) % 2) len
+        if i % 3 = 0 then genManyGroups rng (13 + (i / 3) % 2) len
         else if i % 3 = 1 then genBigGroup rng (14 + (i / 3) % 3) len
         else genRandomHistory rng profGc len
       | "cycle" => genCycles rng (i % 14) len
